@@ -488,4 +488,95 @@ example :
       [([.req "T"], 2, 1, none), ([.complete "E", .req "C", .req "T"], 1, 1, none),
        ([.complete "E", .req "C", .req "T"], 0, 1, none), ([.complete "E", .req "C"], 0, 0, none)] := by decide
 
+/-! ## taking turns, counted: a permutation, one token per return, the longest-waiting one, the others untouched -/
+
+instance : LawfulBEq Tok where
+  eq_of_beq {a b} h := by
+    obtain ⟨f, n⟩ := a
+    obtain ⟨g, m⟩ := b
+    simp only [BEq.beq, instBEqTok.beq, Bool.and_eq_true, decide_eq_true_eq] at h
+    rw [h.1, h.2]
+  rfl {a} := by
+    obtain ⟨f, n⟩ := a
+    simp [BEq.beq, instBEqTok.beq]
+
+/-- COUNTING form of `nextTurn_mem`: when no token waits twice, the tokens that travel on followed by the tokens that
+still wait are a PERMUTATION of those before — nothing dropped, nothing doubled -/
+theorem nextTurn_perm (s : St) (node : String) (out : List Tok) (h : s.parked.Nodup) :
+    ((nextTurn s node out).1 ++ (nextTurn s node out).2.parked).Perm (out ++ s.parked) := by
+  unfold nextTurn
+  split
+  · exact List.Perm.refl _
+  · rename_i w hw
+    have hwm : w ∈ s.parked := List.mem_of_find?_eq_some hw
+    simp only [List.append_assoc]
+    refine List.Perm.append_left out ?_
+    rw [← h.erase_eq_filter w]
+    exact (List.perm_cons_erase hwm).symm
+
+/-- the waiting list stays free of repetitions -/
+theorem nextTurn_parked_nodup (s : St) (node : String) (out : List Tok) (h : s.parked.Nodup) :
+    (nextTurn s node out).2.parked.Nodup := by
+  unfold nextTurn
+  split
+  · exact h
+  · exact h.filter _
+
+/-- AT MOST ONE token takes its turn per return, and exactly one when somebody waits at the node -/
+theorem nextTurn_one (s : St) (node : String) (out : List Tok) :
+    (nextTurn s node out).1.length = out.length + (if s.parked.any (·.node == node) then 1 else 0) := by
+  rw [nextTurn_fst]
+  cases hf : s.parked.find? (·.node == node) with
+  | none =>
+    have : s.parked.any (·.node == node) = false := by
+      rw [List.any_eq_false]; intro x hx; simpa using List.find?_eq_none.mp hf x hx
+    simp [this]
+  | some w =>
+    have : s.parked.any (·.node == node) = true :=
+      List.any_eq_true.mpr ⟨w, List.mem_of_find?_eq_some hf, by simpa using List.find?_some hf⟩
+    simp [this]
+
+/-- the waiting list shrinks by exactly that one -/
+theorem nextTurn_parked_length (s : St) (node : String) (out : List Tok) (h : s.parked.Nodup) :
+    (nextTurn s node out).2.parked.length + (if s.parked.any (·.node == node) then 1 else 0) = s.parked.length := by
+  have hp := (nextTurn_perm s node out h).length_eq
+  have ho := nextTurn_one s node out
+  simp only [List.length_append] at hp
+  omega
+
+/-- tokens waiting at OTHER nodes are untouched, in their order -/
+theorem nextTurn_others (s : St) (node : String) (out : List Tok) :
+    (nextTurn s node out).2.parked.filter (·.node != node) = s.parked.filter (·.node != node) := by
+  unfold nextTurn
+  split
+  · rfl
+  · rename_i w hw
+    have hn : (w.node == node) = true := by simpa using List.find?_some hw
+    simp only [List.filter_filter]
+    apply List.filter_congr
+    intro x _
+    by_cases e : x = w
+    · subst e; simpa using hn
+    · have : (x != w) = true := by simpa using e
+      simp [this]
+
+/-- FIFO at one node: the token that takes its turn is the one that has waited longest at that node -/
+theorem nextTurn_first (s : St) (node : String) (out : List Tok) (w : Tok)
+    (hw : (nextTurn s node out).1 = out ++ [w]) :
+    ∃ before after, s.parked = before ++ w :: after ∧ ∀ y ∈ before, y.node ≠ node := by
+  rw [nextTurn_fst] at hw
+  have hw' := List.append_cancel_left hw
+  cases hf : s.parked.find? (·.node == node) with
+  | none => rw [hf] at hw'; simp at hw'
+  | some v =>
+    rw [hf] at hw'
+    have : v = w := by simpa using hw'
+    subst this
+    obtain ⟨_, as, bs, hs, hb⟩ := List.find?_eq_some_iff_append.mp hf
+    exact ⟨as, bs, hs, fun y hy => by simpa using hb y hy⟩
+
+/-- the hypothesis is met along the D43 history (two tokens at one node), where a token does wait -/
+example : turnsRun.all (fun s => decide (s.parked.Nodup)) = true ∧ turnsRun.any (fun s => s.parked.length == 1) = true := by
+  decide
+
 end Bpmn.Props.C12Turns
